@@ -18,6 +18,16 @@ AXCLS = ["first", "node", "last", "cell", "below", "above", "nan"]
 
 
 def coord(r, ax, cls):
+    v = _coord(r, ax, cls)
+    # a "below"/"above" point must really be outside in floating point (tiny offsets can round onto the node)
+    if cls == "below" and not v < ax[0]:
+        v = float(np.nextafter(ax[0], -np.inf))
+    if cls == "above" and not v > ax[-1]:
+        v = float(np.nextafter(ax[-1], np.inf))
+    return v
+
+
+def _coord(r, ax, cls):
     n = len(ax)
     if cls == "first":
         return float(ax[0])
